@@ -28,7 +28,7 @@ ASSUMPTIONS = [
     "Sum observables (qp.sum) are accepted by transpile's check (only LinearCombination and Prod are refused) and are therefore part of the domain.",
     "default.mixed: qp.state() is documented to return the density matrix, so the expected value of a state measurement there is |psi><psi| on the device wires.",
 ]
-BUDGET = {"quick": {"examples": 1200}, "thorough": {"examples": 60000, "shards": 16}}
+BUDGET = {"quick": {"examples": 1800}, "thorough": {"examples": 60000, "shards": 16}}
 SHRINK_LISTS = ("ops", "meas")
 
 
@@ -261,7 +261,7 @@ def check(spec):
         wl = pos is not None and spec["meas"][pos].get("obs") is None and spec["meas"][pos].get("w") is None
         raise Viol("result-changed", f"{diff}; edges={spec['edges']} ops={spec['ops']} meas={spec['meas']} device={spec['device']} "
                                      f"out_ops={[str(o) for o in out.operations]} out_meas={[str(m) for m in out.measurements]}",
-                   sig=f"result:{mp}{':wireless' if wl and mp != 'state' else ''}:{'dev' if spec['device'] else 'nodev'}", features={**feats, "mp": mp})
+                   sig=f"result:{mp}{':wireless' if wl and mp != 'state' else ''}:{spec['device'] or 'nodev'}", features={**feats, "mp": mp})
     off = sum(1 for op in tape.operations if len(op.wires) == 2 and not _on_edge(op.wires[0], op.wires[1], edges))
     n_swaps = sum(1 for op in out.operations if op.name == "SWAP") - sum(1 for op in tape.operations if op.name == "SWAP")
     labels = [f"graph:{spec['graph']}", f"device:{spec['device']}", f"fmt:{spec['fmt']}", f"offedge:{min(off, 3)}{'+' if off >= 3 else ''}",
